@@ -2,6 +2,8 @@ SPECIFICATION Spec
 CONSTANTS N = 3
  M = 2
  MaxLen = 2
+ MaxStep = 2
 INVARIANT Sound
+INVARIANT ProgressionSound
 INVARIANT Export
 CHECK_DEADLOCK FALSE
